@@ -123,3 +123,57 @@ func cmdDump(args []string) {
 		fn.WriteTo(os.Stdout)
 	}
 }
+
+// cmdLoops lists the loops of a function with their ordinals (as used by
+// "//@ loop <k> invariant"), header block, source line and header phis.
+func cmdLoops(args []string) {
+	l, err := loadRepo()
+	if err != nil {
+		fmt.Fprintln(os.Stderr, "TOOL-ERROR:", err)
+		os.Exit(2)
+	}
+	for _, a := range args {
+		fn := l.Funcs[a]
+		if fn == nil {
+			fmt.Println("not found:", a)
+			continue
+		}
+		fr := &Frame{fn: fn}
+		func() {
+			defer func() { recover() }()
+			fr.analyze()
+		}()
+		hs := make([]*ssa.BasicBlock, len(fr.loops))
+		for h, li := range fr.loops {
+			hs[li.Ordinal] = h
+		}
+		fmt.Println(a)
+		for k, h := range hs {
+			line := 0
+			for _, ins := range h.Instrs {
+				if ins.Pos().IsValid() {
+					line = l.Prog.Fset.Position(ins.Pos()).Line
+					break
+				}
+			}
+			if line == 0 {
+				for b := range fr.loops[h].Blocks {
+					for _, ins := range b.Instrs {
+						if ins.Pos().IsValid() {
+							if ln := l.Prog.Fset.Position(ins.Pos()).Line; line == 0 || ln < line {
+								line = ln
+							}
+						}
+					}
+				}
+			}
+			var phis []string
+			for _, ins := range h.Instrs {
+				if p, ok := ins.(*ssa.Phi); ok {
+					phis = append(phis, p.Comment)
+				}
+			}
+			fmt.Printf("  loop %d: block %d (%s) line~%d phis=%v\n", k, h.Index, h.Comment, line, phis)
+		}
+	}
+}
